@@ -67,9 +67,23 @@ def server_handler(mode, state):
             io.send_frame(cid, cp)
             io.enable_compression(th)
         scripts.send_login_success(io, PV, codec)
+        if state.get('burst'):
+            # the networking thread is a queuing party too: a burst of
+            # teleports and keep-alives, whose answers it queues itself
+            buf = bytearray()
+            for kind, v in state['burst']:
+                if kind == 'tc':
+                    buf += io.encode_frame(*codec.encode('cb_position_look', {
+                        'x': 1.0, 'y': 2.0, 'z': 3.0, 'yaw': 0.0, 'pitch': 0.0,
+                        'flags': 0, 'teleport_id': v, 'dismount': False}))
+                else:
+                    buf += io.encode_frame(*codec.encode('cb_keep_alive',
+                                                         {'id': v}))
+            io.send_raw(bytes(buf))
         state['in_play'] = True
         msgs = []
         state['msgs'] = msgs
+        state['replies'] = []
         while True:
             fr = io.recv_frame(15.0)
             if fr is None:
@@ -77,6 +91,10 @@ def server_handler(mode, state):
             name, vals = codec.decode('play', fr[0], fr[1])
             if name == 'sb_chat':
                 msgs.append(vals['message'])
+            elif name == 'teleport_confirm' and state.get('burst'):
+                state['replies'].append(('tc', vals['teleport_id']))
+            elif name == 'sb_keep_alive' and state.get('burst'):
+                state['replies'].append(('ka', vals['id']))
             else:
                 msgs.append('<%s id=%d>' % (name, fr[0]))
         state['eof'] = True
@@ -182,6 +200,15 @@ def judge(run, log, state, threads, final, server, w, engine):
     if state.get('partial'):
         bad('wire/partial-frame', 'the stream ends inside a frame',
             leftover=state['partial'])
+    if state.get('burst'):
+        # answers queued by the networking thread itself: in arrival order
+        rep_ = state.get('replies') or []
+        run.count(engine + '.own_replies_checked', len(rep_))
+        if rep_ != list(state['burst'])[:len(rep_)]:
+            bad('wire/queue-order/networking-thread', 'the answers the '
+                'networking thread queued for one burst of server packets '
+                'left in another order', got=rep_[:8],
+                expected=list(state['burst'])[:8])
     msgs = state.get('msgs')
     if msgs is None or not state.get('eof'):
         bad('wire/not-closed', 'the socket was not closed after disconnect()')
@@ -428,6 +455,9 @@ def stress_run(run, rng, cfg, idx):
     from minecraft.networking.packets import serverbound
     mode, threads, final = cfg['mode'], cfg['threads'], cfg['final']
     state = {'threshold': cfg.get('threshold', 16)}
+    if idx % 2:
+        state['burst'] = [('tc', 1), ('ka', 77), ('tc', 2), ('tc', 3),
+                          ('ka', 78)]
     server = mcserver.Server(server_handler(mode, state))
     log = pc.EventLog()
     rec = pc.Recorder(log)
@@ -641,7 +671,8 @@ def leave_or_bulk_run(run, rng, mode, idx, variant):
     rec = pc.Recorder(log)
     conn = None
     if variant == 'bulk':
-        n = (301, 450, 700)[idx % 3]
+        # (more than one write batch; more than any "reasonable" queue bound)
+        n = (301, 1500, 450, 2600, 700)[(idx // 3) % 5]
         threads = [[('q', 'bk%d.%d' % (idx, i)) for i in range(n)]]
         final = (0, False)
     else:
@@ -840,7 +871,8 @@ def run(run):
         run.case((variant, i, mode))
         if err:
             run.inconclusive_because('%s %d: %s' % (variant, i, err))
-    run.require('bulk.runs', 1)
+    run.require('bulk.runs', 2)
+    run.require('stress.own_replies_checked', 5)
     run.require('leave.runs', 1)
     run.require('backpressure.runs', 2)
     run.require('backpressure.blocked_sends', 1)
